@@ -28,7 +28,7 @@ fn plan(check: &str, tier: &str) -> (u64, f64) {
         "C03" => 8_000,
         "C09" => 5_500,
         "C18" => 7_000,
-        "C20" => 4_500,
+        "C20" => 3_500,
         "C10" => 2_500,
         "C11" => 2_000,
         "C06" => 1_500,
@@ -491,9 +491,15 @@ fn sample_of(scn: &Scenario) -> serde_json::Value {
 }
 
 fn rule_text(check: &str) -> String {
-    let common = "Each case is one simulated run: configuration, key universe, value sizes, operation sequence, fault kinds and scheduler strategy are all drawn from VERIF_SEED (run i uses seed mix(VERIF_SEED, check, i)). ";
+    let common = "Each case is one simulated run: configuration, key universe, value sizes, operation sequence, fault kinds and scheduler strategy are all drawn from VERIF_SEED (run i uses seed mix(VERIF_SEED, check, i)); 'evaluations' counts the cases judged by the oracle. ";
     let specific = match check {
-        "C01" | "C02" | "C05" | "C12" | "C13" | "C14" | "C19" => "A run is non-trivial if at least one of the check's reach conditions fired in it (e.g. a merge ran, a reopen happened, a rollover occurred, a hint file existed). Distinct = distinct coverage signature: hash of (operation-kind sequence with value-size class, max_file_size, cache, pool).",
+        "C01" | "C02" | "C05" | "C12" | "C13" | "C14" | "C19" => "A run is non-trivial if at least one reach condition fired in it (a second data file was created, a merge ran, a reopen happened, a hint file existed at close, the accounting was compared). Distinct = distinct coverage signature: hash of (operation-kind sequence with value-size class, max_file_size, cache, pool).",
+        "C03" | "C09" => "One evaluation = one crash (C09: power-loss) image recovered with the real open and judged. A run is non-trivial if it produced more than one image. Distinct = distinct coverage signature of an image: hash of (kind of the I/O record the image was cut after, data or hint file, kind of the enclosing operation, whether an operation was in flight, number of data files (capped at 5), number of hint files (capped at 3), an empty data file present, bytes lost / tail torn (C09), image variant).",
+        "C20" => "One evaluation = one re-run of a workload with exactly one file-system call failed. Non-trivial if the fault fired. Distinct = distinct coverage signature: hash of (kind of the failed call, kind of the enclosing operation incl. two-write entries, data or hint file, errno, clean failure or short-write-then-error).",
+        "C04" | "C11" | "C10" | "C15" | "C16" | "C17" => "Distinct = distinct schedule: hash of the sequence of scheduler decisions (step, chosen thread) and task/waiter picks of the run. Non-trivial if the run had real interleaving (more context switches than threads; for the network checks: a command ran inside the store / clients were served).",
+        "C06" => "Distinct = distinct coverage signature: hash of (server read segmentation mode, client chunking mode, number of requests (capped), small socket capacity). Non-trivial if at least one request was sent.",
+        "C08" => "Distinct = distinct coverage signature: hash of (set of frame classes in the sequence, read segmentation mode, stream cut inside a frame, writer stalled inside a frame, real or raw writer).",
+        "C18" => "Distinct = distinct coverage signature: hash of (trigger placement mode, policy never, trigger predicate true, interval sync on, number of merges observed (capped at 3)).",
         _ => "Distinct = distinct coverage signature.",
     };
     format!("{}{}", common, specific)
@@ -503,9 +509,23 @@ fn expected_probes(check: &str) -> Vec<&'static str> {
     match check {
         "C01" => vec!["merge_selected_all_nonempty", "merge_selected_strict_subset", "merge_selected_none", "merge_output_rolled_over"],
         "C02" => vec!["reopen", "reopen_without_writes"],
-        "C05" => vec!["merge_selected_strict_subset", "tombstone_over_unmerged_value", "merge_output_rolled_over", "reopen"],
+        "C05" => vec!["merge_selected_strict_subset", "merge_output_rolled_over", "reopen"],
         "C12" => vec!["several_hint_files", "hint_file_with_many_entries", "hint_file_with_dead_entries", "empty_hint_file"],
         "C13" => vec!["merge_selected_all_nonempty", "merge_with_nothing_live", "merge_selected_none"],
+        "C03" => vec!["crash_point_inside_merge", "crash_point_inside_multi_write_entry", "crash_point_inside_recovery_open", "image_with_empty_data_file", "concurrent_crash_workload"],
+        "C09" => vec!["power_image_lost_unsynced_bytes", "power_image_torn_tail", "hint_durable_beyond_data", "crash_point_inside_merge", "concurrent_crash_workload"],
+        "C04" => vec!["mutex_contended", "backoff_spin", "rwlock_shared_contended", "rwlock_exclusive_contended"],
+        "C06" => vec!["real_client_exchange"],
+        "C08" => vec!["real_writer_over_stream", "stalled_inside_a_frame", "stream_cut_inside_a_frame"],
+        "C10" => vec!["hostile_connection_closed_by_server", "task_panic_contained"],
+        "C11" => vec!["two_commands_in_store_simultaneously", "select_entered"],
+        "C14" => vec!["crash_image_cut_inside_merge_then_continued", "image_lacks_highest_id_of_lineage", "reopen"],
+        "C15" => vec!["handler_panic_injected", "store_error_injected", "limit_reached", "task_panic_contained"],
+        "C16" => vec!["request_unanswered_at_shutdown", "select_entered"],
+        "C17" => vec!["stale_handle_rejected", "reopen_at_once", "reopen_while_old_worker_alive", "drop_while_worker_in_blocking_call", "drop_while_worker_sleeping", "client_op_rejected_as_closed"],
+        "C18" => vec!["trigger_by_dead_bytes_only_just_crossed", "trigger_by_fragmentation_only_just_crossed", "dead_bytes_exactly_at_trigger", "fragmentation_exactly_at_trigger", "policy_never", "interval_sync", "jitter_extreme"],
+        "C19" => vec!["reopen", "merge_selected_all_nonempty"],
+        "C20" => vec!["fault_during_merge", "fault_during_multi_write_entry", "fault_during_open", "fault_in_background_task", "fault_reported_as_error"],
         _ => vec![],
     }
 }
